@@ -19,13 +19,13 @@ DEFECT_NAMES = {"R": "restore-unvalidated", "A": "reverse-add-duplicate", "D": "
                 "X": "pool-outside-overlap", "L": "late-add-completion",
                 "C": "config-port-geometry-unchecked", "G": "preserved-mapping-not-released",
                 "Q": "queue-overflow-drops-release"}
-RULE = ("Four kinds of history. ev: the real Component with its restore-window queue open: lifecycle (active / released / other state) x (IPoE / PPPoE / other access), programmed and restored events and foreign payloads go through the subscribed entry points, restore steps run directly, Z = drainQueue, further events follow; three cases per run overflow the 4096-event bound with a release among the overflowing events.  Three further kinds.  mp: two pools on one PoolManager (outside addresses disjoint, overlapping or equal), cgnat.Config.Validate first, then <=40 pool calls addressed to either pool, dumps with the cross-pool overlap monitor.  comp histories contain up to two process restarts (B: fresh pool manager and component over the same opdb, restoreFromOpDB over all persisted records, decoded from the JSON the component itself wrote) and dumps of the persisted records (b); comp subscribers come in VRF twins (same inside address in VRF 0, 1, 2) and a share of the activations leaves the dataplane add in flight (L) and completes it later (K ok/failed) in any order relative to the other events.  pool: <=70 calls of AllocateBlock/GetOrAllocate/ReleaseBlocks/RestoreMapping/"
+RULE = ("Four kinds of history. ev: the real Component with its restore-window queue open: lifecycle (active / released / other state) x (IPoE / PPPoE / other access), programmed and restored events and foreign payloads go through the subscribed entry points, restore steps run directly, Z = drainQueue, further events follow; three cases per run overflow the 4096-event bound with a release among the overflowing events.  Three further kinds.  mp: two pools on one PoolManager (outside addresses disjoint, overlapping or equal), cgnat.Config.Validate first, then <=40 pool calls addressed to either pool, dumps with the cross-pool overlap monitor.  comp histories contain up to two process restarts (B: fresh pool manager and component over the same opdb, restoreFromOpDB over all persisted records, decoded from the JSON the component itself wrote) and dumps of the persisted records (b); Subscribers are (VRF, full 32-bit inside address) and come from a pool whose members differ from 10.0.0.5 in exactly one address byte (1st, 2nd, 3rd or 4th) or only in the VRF; a deterministic block of four cases (one per case kind) gives each of them its own block, releases them one by one and sweeps the reverse index; keys are printed in full and a share of the activations leaves the dataplane add in flight (L) and completes it later (K ok/failed) in any order relative to the other events.  pool: <=70 calls of AllocateBlock/GetOrAllocate/ReleaseBlocks/RestoreMapping/"
         "RestoreMappingIfAbsent on one PoolManager over <=7 subscribers (two VRFs); comp: <=45 events driven through "
         "the real Component (handleSessionActivate with and without an HA-synced record, handleSessionRelease, "
         "restoreFromOpDB with one persisted mapping in the session-present and the degraded branch), each with a fault "
         "pattern for the southbound fake: dataplane add ok/failed, every dataplane delete ok/failed and completing "
         "at once or later (pending callbacks fired newest-first by a C event), bulk reprogram ok / per-mapping error "
-        "/ transport error.  After EVERY comp event the reverse index is swept.  Configurations go through cgnat.Config.Validate first in every case kind (a rejected one ends the case); they include a reversed port range, a bound above 65535 and a block size derived as 0.  One case per run sweeps all 65536 ports of a default-range pool.  Geometries: 1-4 public addresses given as literals and /30 /31 prefixes (sometimes duplicated), "
+        "/ transport error.  After EVERY comp event the reverse index is swept.  Configurations go through cgnat.Config.Validate first in every case kind (a rejected one ends the case); they include a reversed port range, a bound above 65535 and a block size derived as 0.  One case per run sweeps all 65536 ports of a default-range pool.  Geometries: 1-4 public addresses given as literals and /30 /31 prefixes, or four literals that differ only in the 3rd / 2nd / 1st byte (sometimes duplicated), "
         "0-2 exclusions, port ranges of 77..64512 ports with block sizes 4..1024 giving 0,4,8,16,64,65,125,126,128 "
         "blocks per address (one word, word boundary, two words), block size from subscriber-ratio, defaults for "
         "every unset field, limit 1-4, paired/arbitrary pooling.  About a third of the histories are 'clean' (no restores, no duplicate addresses, one live session per subscriber), so that the contract proper is compared exactly even while recorded defects are unfixed.  Restore arguments come from named classes: free "
@@ -49,6 +49,15 @@ ASSUMPTIONS = ["port-range start <= end <= 65535 (cgnat.Config.Validate does not
                "then depends on one-live-session-per-inside-address and on restore running before events, see notes)"]
 
 BASE = 1681915904  # 100.64.0.0
+
+# Subscriber k = inside VRF * 2^32 + the 32-bit inside address.  The pool below contains addresses that differ from
+# 10.0.0.5 ONLY in the 1st, only in the 2nd, only in the 3rd, only in the 4th byte, and the same addresses in two more
+# VRFs: a key that drops any part of (VRF, address) makes two of them one subscriber.
+SB = (10 << 24) + 5                       # 10.0.0.5
+V1, V2 = 1 << 32, 2 << 32
+SUBS = [SB, SB + 1, SB + (1 << 8), SB + (1 << 16), SB + (1 << 24), SB + V1, SB + V2, SB + (1 << 8) + V1,
+        SB + (1 << 16) + V2, (192 << 24) + (168 << 16) + 5, 5]
+TWINS = [SB, SB + 1, SB + (1 << 8), SB + (1 << 16), SB + (1 << 24), SB + V1]   # pairwise one-component apart from SB
 
 GEOMS = [  # (range, bs, ratio, weight)
     ("1024-1151", 16, 0, 10), ("1024-1151", 32, 0, 5), ("1024-1151", 64, 0, 3), ("1024-1151", 0, 8, 2),
@@ -76,10 +85,13 @@ def geom_params(g):
 def gen_cfg(rng, allow_dup=True):
     g = rng.choices(GEOMS, weights=[x[3] for x in GEOMS])[0]
     ps, pe, ebs, total = geom_params(g)
-    shape = rng.choice(["1", "2", "3", "/31", "/30", "/31+1", "1+/31"])
+    shape = rng.choice(["1", "2", "3", "/31", "/30", "/31+1", "1+/31", "spread", "spread3"])
     outs = {"1": [str(BASE + 1)], "2": [str(BASE + 1), str(BASE + 2)], "3": [str(BASE + 5), str(BASE + 1), str(BASE + 9)],
             "/31": ["%d/31" % (BASE + 1)], "/30": ["%d/30" % (BASE + 2)], "/31+1": ["%d/31" % BASE, str(BASE + 7)],
-            "1+/31": [str(BASE + 9), "%d/31" % (BASE + 2)]}[shape]
+            "1+/31": [str(BASE + 9), "%d/31" % (BASE + 2)],
+            # public addresses that differ only in the 3rd, only in the 2nd, only in the 1st byte
+            "spread": [str(BASE + 1), str(BASE + 1 + (1 << 8)), str(BASE + 1 + (1 << 16)), str(BASE + 1 + (1 << 24))],
+            "spread3": [str(BASE + 1 + (1 << 24)), str(BASE + 1 + (1 << 16)), str(BASE + 1)]}[shape]
     ips = []
     for o in outs:
         if "/" in o:
@@ -153,7 +165,7 @@ def sweep_ops(gp):
 def gen_pool_case(rng, nmax):
     clean = rng.random() < 0.35      # no restores, no duplicate addresses: exercises the contract proper
     toks, gp = gen_cfg(rng, allow_dup=not clean)
-    subs = [1, 2, 3, 4, 258, 65537, 65538][:rng.randint(2, 7)]
+    subs = rng.sample(SUBS, rng.randint(2, 7))
     ops = []
     n = rng.randint(5, nmax)
     heavy_restore = rng.random() < 0.3
@@ -189,9 +201,9 @@ def del_pattern(rng):
 def gen_comp_case(rng, nmax):
     clean = rng.random() < 0.35      # one live session per subscriber, no restores, no duplicate addresses
     toks, gp = gen_cfg(rng, allow_dup=not clean)
-    subs = rng.sample([1, 2, 3, 65537, 131073, 65538, 258, 700], rng.randint(2, 6))
+    subs = rng.sample(SUBS, rng.randint(2, 6))
     if clean:
-        subs = [k for k in subs if k < 65536] or [1]
+        subs = [k for k in subs if k < V1] or [SB]
     live = {}
     inflight = []
     restarts = [0]          # sid -> k
@@ -315,7 +327,7 @@ def gen_mp_case(rng, nmax):
     for _ in range(rng.randint(4, nmax)):
         r = rng.random()
         p = rng.choice("12")
-        k = rng.choice([1, 2, 3, 4])
+        k = rng.choice(TWINS)
         if r < 0.5:
             ops.append("a:%s:%d" % (p, k))
         elif r < 0.62:
@@ -336,7 +348,7 @@ def gen_mp_case(rng, nmax):
 
 def gen_ev_case(rng, nmax, overflow=False):
     toks, gp = gen_cfg(rng, allow_dup=False)
-    subs = rng.sample([1, 2, 3, 4, 65537, 65538, 258, 700, 7, 14], rng.randint(3, 7))
+    subs = rng.sample(SUBS + [SB + 2, SB + 9], rng.randint(3, 7))
     ok = lambda k: 0 if k % 7 == 0 else 1          # outcome of the dataplane add, fixed per subscriber in a case
     nxt = [1]
     known = {}                                       # sid -> k for sessions the component may know
@@ -412,10 +424,10 @@ def gen_cases(rng, tier, budget):
         head = "pool bs=%d ratio=0 range=1024-1151 max=%d pooling=%d out=%s excl=- | " % (bs, mx, pooling, outs)
         ops = []
         for rnd in range(2):
-            for k in range(1, 8):
+            for k in (TWINS + [SB + V2]):
                 ops += ["a:%d" % k] * (mx + 1)
             ops.append("d")
-            for k in range(1, 8):
+            for k in (TWINS + [SB + V2]):
                 ops.append("r:%d" % k)
             ops.append("d")
         cases.append(head + " ".join(ops))
@@ -424,13 +436,37 @@ def gen_cases(rng, tier, budget):
         bs = 8 if n != 65 else 4
         ops = []
         for k in range(1, n + 3):
-            ops.append("a:%d" % k)
-        ops += ["d", "r:64", "r:65", "r:%d" % n, "a:300", "a:301", "a:302", "a:303", "d"]
+            ops.append("a:%d" % (SB + k * 257))          # 3rd and 4th byte vary together
+        ops += ["d", "r:%d" % (SB + 64 * 257), "r:%d" % (SB + 65 * 257), "r:%d" % (SB + n * 257)] + ["a:%d" % (SB + V1 + j) for j in range(4)] + ["d"]
         cases.append("pool bs=%d ratio=0 range=%s max=1 pooling=1 out=%d excl=- | " % (bs, rg, BASE + 1) + " ".join(ops))
     # every port of the default range swept (64512 ports, 126 blocks per address, interior blocks included)
     cases.append("comp bs=512 ratio=0 range=def max=4 pooling=2 out=%d,%d excl=- | " % (BASE + 1, BASE + 2) +
-                 " ".join("A:%d:%d:1" % (k, k) for k in range(2, 40)) + " w:0:65535 " +
-                 " ".join("X:%d:%d" % (k, k) for k in range(5, 30, 3)) + " w:0:65535 d")
+                 " ".join("A:%d:%d:1" % (k, SB + (k << 16)) for k in range(2, 40)) + " w:0:65535 " +
+                 " ".join("X:%d:%d" % (k, SB + (k << 16)) for k in range(5, 30, 3)) + " w:0:65535 d")
+    # subscribers that differ in exactly one component of (VRF, b1.b2.b3.b4), in every case kind: each gets its own
+    # block, each release frees only its own, lookups name the right one
+    tw = TWINS
+    geo = "bs=16 ratio=0 range=1024-1151 max=2 pooling=1 out=%d excl=-" % (BASE + 1)
+    cases.append("pool " + geo + " | " + " ".join("a:%d" % k for k in tw) + " d " + " ".join("g:%d" % k for k in tw) +
+                 " d " + " ".join("r:%d d" % k for k in tw) + " " +
+                 " ".join("I:%d:%d:%d:%d" % (k, BASE + 1, 1024 + 16 * i, 1039 + 16 * i) for i, k in enumerate(tw)) + " d " +
+                 " ".join("r:%d d" % k for k in reversed(tw)))
+    cases.append("comp " + geo + " | " + " ".join("A:%d:%d:1 w:1000:1200" % (i + 2, k) for i, k in enumerate(tw)) + " d b " +
+                 " ".join("X:%d:%d w:1000:1200 d" % (i + 2, k) for i, k in enumerate(tw)) + " " +
+                 " ".join("D:%d:%d:%d:%d:%d w:1000:1200" % (i + 20, k, BASE + 1, 1024 + 16 * i, 1039 + 16 * i) for i, k in enumerate(tw)) +
+                 " d b B d b w:1000:1200 " + " ".join("X:%d:%d w:1000:1200 d" % (i + 20, k) for i, k in enumerate(tw)))
+    cases.append("ev " + geo + " | " + " ".join("eP:i:%d:%d:1" % (i + 2, k) for i, k in enumerate(tw)) + " Z w:1000:1200 d " +
+                 " ".join("eL:r:i:%d:%d w:1000:1200 d" % (i + 2, k) for i, k in enumerate(tw)))
+    cases.append("mp " + geo + " || bs=16 ratio=0 range=1024-1151 max=2 pooling=1 out=%d excl=- | v " % (BASE + 2) +
+                 " ".join("a:1:%d a:2:%d" % (k, k) for k in tw) + " d " + " ".join("r:1:%d d" % k for k in tw) + " " +
+                 " ".join("r:2:%d d" % k for k in reversed(tw)))
+    spread = ",".join(str(BASE + 1 + d) for d in (0, 1 << 8, 1 << 16, 1 << 24))
+    geo2 = "bs=64 ratio=0 range=1024-1151 max=1 pooling=1 out=%s excl=-" % spread      # 2 blocks per public address
+    ks = [SB + (j << 8) for j in range(9)]
+    cases.append("comp " + geo2 + " | " + " ".join("A:%d:%d:1" % (i + 2, k) for i, k in enumerate(ks)) + " w:1000:1200 d b " +
+                 " ".join("X:%d:%d w:1000:1200" % (i + 2, k) for i, k in enumerate(ks[::2])) + " d B d w:1000:1200")
+    cases.append("pool " + geo2 + " | " + " ".join("a:%d" % k for k in ks) + " d " + " ".join("r:%d d" % k for k in ks[1::2]) +
+                 " " + " ".join("a:%d" % (k + V1) for k in ks[:4]) + " d")
     # configuration corner: block size derived as 0 (ConfigurePool divides by it)
     cases.append("pool bs=0 ratio=1 range=0-65535 max=1 pooling=1 out=%d excl=- | a:1 d" % (BASE + 1))
     for _ in range(npool):
@@ -532,46 +568,40 @@ def classify1(case, impl, model):
                         i, ops_[i] if i < len(ops_) else "?", outs[i][outs[i].index("INADMISSIBLE") + 13:][:60])
     io, mo = impl.split(" ; "), model.split(" ; ")
     ops = split_ops(case)[1]
+    first_glue = None
+    # the first operation whose difference is itself a counter-example decides; glue-only differences before it
+    # (internal diagnostics such as the index sizes) are remembered but do not hide it
     for j, (a, b) in enumerate(zip(io, mo)):
         if a != b:
-            opn = ops[j] if j < len(ops) else "?"
-            extra = prop_flags(a) - prop_flags(b)
-            if extra:
-                return "P", "op #%d %s: property monitor on the implementation's own mappings: %s; impl=%s model=%s" % (
-                    j, opn, ",".join(sorted(extra)), a[:300], b[:300])
-            if a.startswith("sw ") or b.startswith("sw "):
-                return "P", "op #%d %s: reverse lookup differs from the owner: impl=%s model=%s" % (j, opn, a[:200], b[:200])
-            if opn[:1] in ("R", "I") and {a, b} == {"ok", "err"}:
-                return "P", "op #%d %s: restore answered %s, the model %s (acceptance of a restored block differs)" % (j, opn, a, b)
-            if a.startswith("err") and (b.startswith("ok") or b.startswith("dp")):
-                return "P", "op #%d %s: allocation refused (%s) although an admissible free block exists" % (j, opn, a)
-            if (a.startswith("ok") or a.startswith("dp")) and (b.startswith("err") or b == "nodp"):
-                return "P", "op #%d %s: allocation granted (%s) where the limit/pairing/exhaustion rules refuse it (%s)" % (j, opn, a, b)
-            if a.startswith("subs=") and b.startswith("subs="):
-                fa, fb = a.split(" "), b.split(" ")
-                diff = [x.split("=")[0] for x, y in zip(fa, fb) if x != y]
-                kind = "P" if ("subs" in diff or "bits" in diff or "stats" in diff) else "G"
-                return kind, "op #%d %s: pool state differs in %s: impl=%s model=%s" % (j, opn, ",".join(diff), a[:300], b[:300])
-            return "G", "op #%d %s: impl=%s model=%s" % (j, opn, a[:300], b[:300])
+            k, txt = classify_op(j, ops[j] if j < len(ops) else "?", a, b)
+            if k == "P":
+                return k, txt
+            if first_glue is None:
+                first_glue = txt
+    if first_glue is not None:
+        return "G", first_glue
     return "G", "output length differs: impl=%d ops model=%d ops; impl tail=%s" % (len(io), len(mo), io[-1][:200])
 
 
-def config_invalid(case):
-    """does the case contain a pool configuration the repaired Config.Validate rejects?"""
-    head = case.split(" | ", 1)[0]
-    for part in head.split(" || "):
-        g = dict(t.split("=", 1) for t in part.split() if "=" in t)
-        if "range" not in g:
-            continue
-        rg = g["range"]
-        ps, pe = (1024, 65535) if rg == "def" else tuple(int(x) for x in rg.split("-"))
-        if ps > pe or pe > 65535:
-            return True
-        bs, ratio = int(g["bs"]), int(g["ratio"])
-        ebs = bs if bs > 0 else (((pe - ps + 1) // ratio) % 65536 if ratio > 0 else 512)
-        if ebs == 0:
-            return True
-    return False
+def classify_op(j, opn, a, b):
+    extra = prop_flags(a) - prop_flags(b)
+    if extra:
+        return "P", "op #%d %s: property monitor on the implementation's own mappings: %s; impl=%s model=%s" % (
+            j, opn, ",".join(sorted(extra)), a[:300], b[:300])
+    if a.startswith("sw ") or b.startswith("sw "):
+        return "P", "op #%d %s: reverse lookup differs from the owner: impl=%s model=%s" % (j, opn, a[:200], b[:200])
+    if opn[:1] in ("R", "I") and {a, b} == {"ok", "err"}:
+        return "P", "op #%d %s: restore answered %s, the model %s (acceptance of a restored block differs)" % (j, opn, a, b)
+    if a.startswith("err") and (b.startswith("ok") or b.startswith("dp")):
+        return "P", "op #%d %s: allocation refused (%s) although an admissible free block exists" % (j, opn, a)
+    if (a.startswith("ok") or a.startswith("dp")) and (b.startswith("err") or b.startswith("nodp")):
+        return "P", "op #%d %s: allocation granted (%s) where the limit/pairing/exhaustion rules refuse it (%s)" % (j, opn, a, b)
+    if a.startswith("subs=") and b.startswith("subs="):
+        fa, fb = a.split(" "), b.split(" ")
+        diff = [x.split("=")[0] for x, y in zip(fa, fb) if x != y]
+        kind = "P" if ("subs" in diff or "bits" in diff or "stats" in diff) else "G"
+        return kind, "op #%d %s: pool state differs in %s: impl=%s model=%s" % (j, opn, ",".join(diff), a[:300], b[:300])
+    return "G", "op #%d %s: impl=%s model=%s" % (j, opn, a[:300], b[:300])
 
 
 def signature(case, impl, models):
